@@ -590,3 +590,129 @@ Print Assumptions C02_tie_fs_new_src.
 Theorem C02_tie_C02_fs_comp_prefix_src : ltac:(let t := type of SrcTie3CompCarry.C02_fs_comp_prefix_src in exact t).
 Proof. exact SrcTie3CompCarry.C02_fs_comp_prefix_src. Qed.
 Print Assumptions C02_tie_C02_fs_comp_prefix_src.
+(* ================= work package `carry`: C02 about the GENERATED convert_to_archive =================
+   Subject: gen/Src3r.v — the body of ArchiveFailSafeReader::convert_to_archive re-translated from /repo
+   on every run, writing through the re-translated ArchiveWriter of gen/Src2.v.  Composition of
+   SrcTie3RepairLoop.convert_to_archive_sim with the theorems above (CarryRepair.v).  `status_of e` is
+   what a caller reads off the returned FailSafeReadError: the stopping status and the list of an
+   UnfinishedFiles wrapper.  Premise on the source: RdBounded (a read never delivers more than asked, in
+   every state) — proved for Cursor and Throttled sources; NOT derivable from `Refines` alone (which
+   speaks of related states only).  Trusted link: ArchiveFileBlock::from = Blocks.parse_block. *)
+From MLA Require SrcTie2 SrcTie3Repair SrcTie3RepairLoop CarryRepair.
+From MLAGen Require Src2 Src3r.
+Import SrcTie2 SrcTie3Repair SrcTie3RepairLoop CarryRepair.
+
+Theorem C02_repair_cut_sound_src :
+  forall FNMAX CACHE : N, FNMAX < 2 ^ 64 -> 0 < CACHE ->
+  forall TS TC TA TE : N,
+    TS <> TC /\ TS <> TA /\ TS <> TE /\ TC <> TA /\ TC <> TE /\ TA <> TE ->
+  forall H : bytes -> bytes, (forall x, len (H x) = 32) ->
+  forall (bl : list block) (trailer : bytes),
+    wf_blocks FNMAX H bl -> In BEnd bl \/ trailer = [] ->
+  forall (n : N) (S : Stream) (R : st S -> N -> Prop) (s0 : st S) (fuel : nat),
+    RdBounded S ->
+    Refines S (takeN n (body TS TC TA TE bl ++ trailer)) R -> R s0 0 -> (N.to_nat n < fuel)%nat ->
+    exists (l : Src3r.Locals S) (e : Src3r.FailSafeReadError) (status : fstatus) (unfinished : list bytes)
+           (obl : list block),
+      Src3r.convert_to_archive FNMAX CACHE TS TC TA TE H (footer_ser (fun f => f)) (fun _ => Ok tt) S
+        (block_from FNMAX TS TC TA TE S) fuel s0 aw_init = (l, Ok e) /\
+      status_of e = (status, unfinished) /\
+      good_output FNMAX TS TC TA TE H (absW (Src3r.l_output S l)) obl /\
+      (forall g, In g (files_of obl) ->
+         exists f, In f (files_of bl) /\ RepairSpec.f_name f = RepairSpec.f_name g /\ prefix (f_data g) (f_data f)) /\
+      (forall name, prefix (content_of (files_of obl) name) (content_of (files_of bl) name)) /\
+      (forall g, In g (files_of obl) -> ~ In (RepairSpec.f_name g) unfinished ->
+         exists f, In f (files_of bl) /\ RepairSpec.f_name f = RepairSpec.f_name g /\ f_data f = f_data g /\ f_ended f = true) /\
+      (status = FEndOfData ->
+         unfinished = [] /\ Forall2 same (files_of bl) (files_of obl) /\
+         (forall f, In f (files_of bl) -> f_ended f = true)) /\
+      (status = FEndOfData \/ status = FEofNextBlock).
+Proof. exact repair_cut_sound_src. Qed.
+
+(* status, unfinished names and recovered records are those of the pure `cutb`, at every cut *)
+Theorem C02_repair_cut_exact_src :
+  forall FNMAX CACHE : N, FNMAX < 2 ^ 64 -> 0 < CACHE ->
+  forall TS TC TA TE : N,
+    TS <> TC /\ TS <> TA /\ TS <> TE /\ TC <> TA /\ TC <> TE /\ TA <> TE ->
+  forall H : bytes -> bytes, (forall x, len (H x) = 32) ->
+  forall (bl : list block) (trailer : bytes),
+    wf_blocks FNMAX H bl -> In BEnd bl \/ trailer = [] ->
+  forall (n : N) (S : Stream) (R : st S -> N -> Prop) (s0 : st S) (fuel : nat),
+    RdBounded S ->
+    Refines S (takeN n (body TS TC TA TE bl ++ trailer)) R -> R s0 0 -> (N.to_nat n < fuel)%nat ->
+    let m := N.min n (len (body TS TC TA TE bl ++ trailer)) in
+    exists (l : Src3r.Locals S) (e : Src3r.FailSafeReadError) (obl : list block),
+      Src3r.convert_to_archive FNMAX CACHE TS TC TA TE H (footer_ser (fun f => f)) (fun _ => Ok tt) S
+        (block_from FNMAX TS TC TA TE S) fuel s0 aw_init = (l, Ok e) /\
+      status_of e = (if snd (cutb bl m) then FEndOfData else FEofNextBlock, unfinished_of (recovered bl m)) /\
+      RInv (Src3r.l_output S l) /\
+      good_output FNMAX TS TC TA TE H (absW (Src3r.l_output S l)) obl /\
+      Forall2 same (recovered bl m) (files_of obl).
+Proof. exact repair_cut_exact_src. Qed.
+
+(* any delivered prefix (composition with the fail-safe layers) *)
+Theorem C02_repair_sound_any_prefix_src : ltac:(let t := type of repair_sound_any_prefix_src in exact t).
+Proof. exact repair_sound_any_prefix_src. Qed.
+Theorem C02_repair_exact_src : ltac:(let t := type of repair_exact_src in exact t).
+Proof. exact repair_exact_src. Qed.
+
+(* the general transfer: EVERY Ok result of the model's repair over an RdBounded source, from the
+   from_config writer, is the result of the translated function (so each theorem of C02 / C05 / C14 that
+   concludes `repair ... w_init = Ok (status, unfinished, out)` over such a source carries over) *)
+Theorem C02_convert_to_archive_of_repair :
+  forall FNMAX CACHE : N, 0 < CACHE -> forall TS TC TA TE H (S : Stream) fuel s0 status unf out,
+    RdBounded S ->
+    repair FNMAX CACHE TS TC TA TE H S fuel s0 w_init = Ok (status, unf, out) ->
+    exists l e,
+      Src3r.convert_to_archive FNMAX CACHE TS TC TA TE H (footer_ser (fun f => f)) (fun _ => Ok tt) S
+        (block_from FNMAX TS TC TA TE S) fuel s0 aw_init = (l, Ok e) /\
+      status_of e = (status, unf) /\ absW (Src3r.l_output S l) = out /\ RInv (Src3r.l_output S l).
+Proof. exact conv_of_repair. Qed.
+Print Assumptions C02_convert_to_archive_of_repair.
+
+(* the premise RdBounded holds of the in-memory cursor and of sources delivering short reads after ANY
+   schedule; the statement for them carries no premise on the source *)
+Theorem C02_RdBounded_cursor : forall b, RdBounded (Cursor b).
+Proof. exact RdBounded_cursor. Qed.
+Theorem C02_RdBounded_throttled : forall b, RdBounded (Throttled b).
+Proof. exact RdBounded_throttled. Qed.
+Theorem C02_repair_cut_sound_cursor_src : ltac:(let t := type of repair_cut_sound_cursor_src in exact t).
+Proof. exact repair_cut_sound_cursor_src. Qed.
+Theorem C02_repair_cut_sound_throttled_src : ltac:(let t := type of repair_cut_sound_throttled_src in exact t).
+Proof. exact repair_cut_sound_throttled_src. Qed.
+
+(* non-vacuity THROUGH THE GENERATED CODE: the stream of C02_example_cut, cut at 137, from a source
+   delivering 1, 3, 2, 2, ... bytes per read: the translated function returns
+   UnfinishedFiles { ["b"], UnexpectedEOFOnNextBlock } and a finalized output *)
+Example C02_example_cut_src :
+  match Src3r.convert_to_archive 48 4 0 1 254 255 ex_H (footer_ser (fun f => f)) (fun _ => Ok tt)
+          (Throttled (takeN 137 ex_stream)) (block_from 48 0 1 254 255 (Throttled (takeN 137 ex_stream)))
+          138 (0, [1; 3; 2]) aw_init with
+  | (l, Ok e) => e = Src3r.UnfinishedFiles [[98]] Src3r.UnexpectedEOFOnNextBlock /\
+                 Src2.state (Src3r.l_output _ l) = Src2.Finalized /\
+                 w_files (absW (Src3r.l_output _ l)) = [([97], 0); ([98], 1)]
+  | _ => False
+  end.
+Proof. vm_compute. repeat split; reflexivity. Qed.
+Example C02_example_cut_src_premises :
+  exists l e, Src3r.convert_to_archive 48 4 0 1 254 255 ex_H (footer_ser (fun f => f)) (fun _ => Ok tt)
+          (Throttled (takeN 137 ex_stream)) (block_from 48 0 1 254 255 (Throttled (takeN 137 ex_stream)))
+          138 (0, [1; 3; 2]) aw_init = (l, Ok e) /\ fst (status_of e) = FEofNextBlock.
+Proof.
+  destruct (C02_repair_cut_sound_src 48 4 ltac:(lia) ltac:(lia) 0 1 254 255
+              ltac:(repeat split; discriminate) ex_H ex_H_len ex_bl ex_trailer C02_example_wf
+              (or_introl ex_bl_end) 137 (Throttled (takeN 137 ex_stream)) _ (0, [1; 3; 2]) 138%nat
+              (RdBounded_throttled _) (throttled_refines _) ltac:(split; [reflexivity | apply N.le_0_l]) ltac:(lia))
+    as (l & e & status & unf & obl & Hg & Hst & _).
+  exists l, e. split; [exact Hg|].
+  pose proof C02_example_cut_src as Hv. cbv zeta in Hv. rewrite Hg in Hv. destruct Hv as (-> & _). reflexivity.
+Qed.
+
+Print Assumptions C02_repair_cut_sound_src.
+Print Assumptions C02_repair_cut_exact_src.
+Print Assumptions C02_repair_sound_any_prefix_src.
+Print Assumptions C02_repair_exact_src.
+Print Assumptions C02_RdBounded_throttled.
+Print Assumptions C02_repair_cut_sound_cursor_src.
+Print Assumptions C02_repair_cut_sound_throttled_src.
+Print Assumptions C02_example_cut_src_premises.
